@@ -4,7 +4,7 @@ from pyvc.tys import *
 from specs.prim import *
 import contracts.syntax      # abstract Segment
 
-from contracts.x12file import SEG_PROBES, native_segment, _lazy
+from contracts.x12file import SEG_PROBES, native_segment, _lazy, _opt
 
 set_scope('contracts.error_997')
 
@@ -118,3 +118,42 @@ contract('pyx12.error_997.error_997_visitor.visit_st_pre',
          serves=['C06'],
          note='AK2: one segment written and counted.  The two exceptional outcomes (an err_st whose ST01/ST02 are None) are stated '
               'exactly, not excluded; whether the validator can hand over such an err_st is decided by the pipeline stand-in, not here')
+
+
+def build_vis_ele(args):
+    v = _native_visitor(args.get('self', {}))
+    st = args.get('err_ele', {})
+    e = _native_rec(st, ('ele_pos', 'subele_pos', 'ele_ref_num'))
+    if e.ele_pos is None:
+        e.ele_pos = 1
+    e.errors = [tuple(_opt(x) for x in t) for t in (st.get('.errors') or [])]
+    return (lambda: v.visit_ele(e)), (), {'self': v, 'err_ele': e}
+
+
+_CODES = [str(k) for k in range(1, 11)]
+_ELE_ERRS = [[['5', 'too long', ['MIM']], ['7', 'bad code', ['MIM']]], [[c, 'm', ['V']] for c in _CODES], [[c, 'm', 'none_Opt_Str'] for c in _CODES],
+             [['5', 'm', ['A*B']], ['6', 'm', ['']], ['11', 'm', ['V']], ['1', 'm', ['a:b~']]], []]
+
+contract('pyx12.error_997.error_997_visitor.visit_ele',
+         self_type=VIS,
+         params={'err_ele': Obj('pyx12.error_handler.err_ele', ele_pos=Int, subele_pos=Opt(Int), ele_ref_num=Opt(Str),
+                                errors=ListOf(Tup(Str, Str, Opt(Str))))},
+         returns=NoneT,
+         requires=['len(self.seg_term) == 1 and len(self.ele_term) == 1 and len(self.subele_term) == 1'],
+         ensures=['self.seg_count - len(self.fd.log) == old(self.seg_count) - len(old(self.fd.log))',
+                  'len(self.fd.log) <= len(old(self.fd.log)) + len(err_ele.errors)',
+                  'len(self.fd.log) >= len(old(self.fd.log))'] + FRAME,
+         raises={},
+         loops={0: dict(index='k', ghost={'c0': 'self.seg_count', 'n0': 'len(self.fd.log)', 'scn0': 'self.st_control_num', 'slc0': 'self.st_loop_count',
+                                          't0': 'self.seg_term', 't1': 'self.ele_term', 't2': 'self.subele_term'},
+                        invariant=['self.seg_count - len(self.fd.log) == c0 - n0', 'len(self.fd.log) <= n0 + k', 'len(self.fd.log) >= n0',
+                                   'self.st_control_num == scn0 and self.st_loop_count == slc0',
+                                   'self.seg_term == t0 and self.ele_term == t1 and self.subele_term == t2'],
+                        modifies=['self.seg_count', 'self.fd.log', 'seg_data', 'err_cde', 'err_str', 'bad_value'],
+                        types={'seg_data': MutOpaque('Segment'), 'err_cde': Str, 'err_str': Str, 'bad_value': Opt(Str)})},
+         alias=ABS_SEG, build='build_vis_ele', options={'seg_set_no_frame': True},
+         ghost={'search': {'self/.seg_count': [0, 7], 'err_ele/.errors': _ELE_ERRS, 'err_ele/.subele_pos': [None, 2],
+                           'err_ele/.ele_ref_num': [None, '66']}},
+         serves=['C06'],
+         note='AK4 lines: every line written is counted (seg_count - lines written is invariant over the loop), at most one line per recorded '
+              'error, nothing else of the visitor changes, no exception for any error list')
